@@ -42,7 +42,24 @@ PARTIAL: t.List[str] = [
     "fuel sufficiency only (no OutOfFuel for any fuel > length, i.e. each individual loop makes <= length iterations before the raise)",
     "C12_rt_ept_map carries the explicit hypothesis in_range 4 (len (tower_bytes tower)) (the 4-octet tower length field pack writes): "
     "wf_ept_map of Model/Epm.v does not state it, and a tower of >= 2^32 octets raises OverflowError in Python",
-    "pack is modelled on in-range field values only (OverflowError of int.to_bytes outside the wf_* ranges is not modelled)",
+    "out-of-range field values: the round-trip theorems are stated on in-range values (wf_*); what pack does outside them (OverflowError of "
+    "int.to_bytes) is stated by the flow ties C12_flow_*_pack (chk (<X>_ranges x) ..), not by the round trips",
+    "EDGE auth value of length 0: wf_lengths requires 0 < auth_len when a trailer is present, so the round trips cover auth values of 1.. octets "
+    "and 'no trailer'; DCE/RPC reads auth_length = 0 as 'no auth trailer', and so does PDU.unpack: a trailer with an empty auth value is NOT "
+    "returned. Pinned by C12_edge_trailer_request/_response/_fault (the 8 trailer octets come back as the tail of stub_data, the decoded PDU "
+    "re-packs to the same octets) and by the unit rpc.edge.empty_auth, which also pins Bind/BindAck/AlterContext* by correspondence only "
+    "(decoded = the message without trailer, re-packing drops the 8 octets; no Coq theorem for these four)",
+    "EDGE nil object UUID / all-zero entry handle: wf_ept_map and wf_entry_handle exclude them because their encoding IS the NDR encoding of "
+    "'absent'; EptMap.unpack / EptMapResult.unpack return None for both (C12_edge_nil_object, C12_edge_zero_handle; unit rpc.edge.nil_uuid)",
+    "EDGE BindNak with a security trailer: wf_bind_nak forbids it because BindNak.pack does not emit one and BindNak._unpack returns "
+    "sec_trailer=None: the trailer is dropped (C12_edge_bind_nak_trailer; unit rpc.edge.bindnak_trailer; norm_pdu no longer masks it)",
+    "EDGE empty command list: wf_commands requires >= 1 command (the last one carries SEC_VT_COMMAND_END); VerificationTrailer([]).pack() is "
+    "the bare signature and unpack rejects it with ValueError (C12_edge_vt_empty; unit rpc.edge.vt_empty)",
+    "model ticks are never compared with the implementation: the units drop them (the values compared are bytes / decoded fields / error "
+    "class); the only link between the proved tick bounds and CPython is the measured interpreter step budget 3000 + 40*len",
+    "PDU.unpack's own body (view[16:frag_len], view[-(auth_len+8):], the _PACKET_TYPE_REGISTRY dispatch) has no flow tie: the translator "
+    "refuses the computed callee; Model/RpcDispatch.pdu_unpack / Pdu.pdu_split stand for it, tied by the kernel k_pdu_has_trailer, the registry "
+    "constants c_PDU_registry / c_PT_* and the rpc.*.pdu correspondence units only",
 ]
 
 
@@ -181,11 +198,124 @@ def pred_rt(norm):
 
 
 def norm_pdu(v):
-    tag, m = v
-    if tag == 13:
-        m = list(m)
-        m[1] = None
-    return [tag, m]
+    """the main round-trip units send BindNak without a trailer (gen_pdus); a BindNak WITH a trailer is the edge unit
+    rpc.edge.bindnak_trailer"""
+    return v
+
+
+# ---------------------------------------------------------------------------------------------------
+# edges of the wf predicates (C12_edge_*): the pinned behaviour, evaluated on the implementation's output
+# ---------------------------------------------------------------------------------------------------
+def _edge_ok(out):
+    if out is None or isinstance(out, Err):
+        return f"pack raised {out}"
+    if len(out) == 2:
+        return f"decoding the encoded message raised {out[1]}"
+    return None
+
+
+def pred_edge_empty_auth(arg, out):
+    """trailer with an empty auth value, header auth_len = 0: not read back; request/response/fault keep the 8 octets as
+    the tail of stub_data (same bytes when re-packed), the counted messages ignore them (re-packing drops them)"""
+    why = _edge_ok(out)
+    if why:
+        return why
+    b, m2, b2 = out
+    tag, m = arg
+    want = list(m)
+    want[1] = None
+    if tag in (0, 2, 3):
+        want[-1] = bytes(m[-1]) + bytes(b)[-8:]
+        wb = bytes(b)
+    else:
+        wb = bytes(b)[:-8]
+    if _canon(m2) != _canon([tag, want]):
+        return "decoded PDU is not the message without trailer (stub_data extended by the 8 trailer octets for request/response/fault)"
+    if isinstance(b2, Err) or bytes(b2) != wb:
+        return "re-encoding the decoded PDU does not give the pinned octets"
+    return None
+
+
+def pred_edge_nil_uuid(norm_none):
+    def pred(arg, out):
+        why = _edge_ok(out)
+        if why:
+            return why
+        b, m2, b2 = out
+        if _canon(m2) != _canon(norm_none(arg)):
+            return "a nil object UUID / all-zero entry handle did not decode to None"
+        if isinstance(b2, Err) or bytes(b2) != bytes(b):
+            return "re-encoding the decoded message gives different bytes"
+        return None
+    return pred
+
+
+def pred_edge_bindnak(arg, out):
+    why = _edge_ok(out)
+    if why:
+        return why
+    b, m2, b2 = out
+    tag, m = arg
+    want = list(m)
+    want[1] = None
+    if _canon(m2) != _canon([tag, want]):
+        return "decoded BindNak is not the message without its trailer"
+    if isinstance(b2, Err) or bytes(b2) != bytes(b):
+        return "re-encoding the decoded BindNak gives different bytes"
+    return None
+
+
+def pred_edge_vt_empty(arg, out):
+    if out is None or isinstance(out, Err) or len(out) != 2:
+        return "VerificationTrailer([]) did not pack, or its encoding was decoded"
+    if bytes(out[0]) != b"\x8a\xe3\x13\x71\x02\xf4\x36\x71":
+        return "VerificationTrailer([]).pack() is not the bare signature"
+    if not (isinstance(out[1], Err) and out[1].name == "ValueError"):
+        return f"unpack of the bare signature gave {out[1]} instead of ValueError"
+    return None
+
+
+def _zero_none(x, zero):
+    return None if x is not None and _canon(x) == zero else x
+
+
+def gen_edge_empty_auth(ctx: Ctx):
+    rng = ctx.rng
+    out = []
+    for tag in (0, 2, 3, 11, 12, 14, 15):
+        for v in gen_pdus(ctx, tag, 200):
+            if v[1][1] is None and len(out) < 10_000:
+                v = [v[0], list(v[1])]
+                v[1][0] = list(v[1][0])
+                v[1][1] = [rng.choice(R.SEC_PROVIDERS), rng.randrange(7), rng.choice([0, 1, 255]), rng.randrange(2 ** 32), b""]
+                out.append(R.with_frag_len(v))
+    return out
+
+
+def gen_edge_nil_eptmap(ctx: Ctx):
+    out = []
+    for i, v in enumerate(gen_eptmaps(ctx)[:60]):
+        v = list(v)
+        if i % 3 != 1:
+            v[0] = bytes(16)
+        if i % 3 != 0:
+            v[2] = [0, bytes(16)]
+        out.append(v)
+    return out
+
+
+def gen_edge_nil_eptres(ctx: Ctx):
+    return [[[0, bytes(16)], v[1], v[2]] for v in gen_eptres(ctx)[:60]]
+
+
+def gen_edge_bindnak(ctx: Ctx):
+    rng = ctx.rng
+    out = []
+    for v in gen_pdus(ctx, 13, 30):
+        v = [v[0], list(v[1])]
+        v[1][1] = [rng.choice(R.SEC_PROVIDERS), rng.randrange(7), 0, rng.randrange(2 ** 32), R.rbytes(rng, rng.choice([0, 1, 16]))]
+        out.append(R.with_frag_len(v))
+    return out
 
 
 def pred_budget(arg, out):
@@ -468,6 +598,13 @@ def units(ctx: Ctx, only=None):
         prop_pred=pred_rt(lambda v: [v[0], [norm_floor(f) for f in v[1]], v[2], v[3]]))
     add("rpc.roundtrip.eptmapresult", "epm.result.roundtrip", lambda: gen_eptres(ctx), impl_eptres_rt,
         prop_pred=pred_rt(lambda v: [v[0], [[norm_floor(f) for f in t_] for t_ in v[1]], v[2]]))
+    add("rpc.edge.empty_auth", "rpc.pdu.roundtrip", lambda: gen_edge_empty_auth(ctx), impl_pdu_rt, prop_pred=pred_edge_empty_auth)
+    add("rpc.edge.nil_uuid.eptmap", "epm.map.roundtrip", lambda: gen_edge_nil_eptmap(ctx), impl_eptmap_rt,
+        prop_pred=pred_edge_nil_uuid(lambda v: [_zero_none(v[0], bytes(16)), [norm_floor(f) for f in v[1]], _zero_none(v[2], [0, bytes(16)]), v[3]]))
+    add("rpc.edge.nil_uuid.eptmapresult", "epm.result.roundtrip", lambda: gen_edge_nil_eptres(ctx), impl_eptres_rt,
+        prop_pred=pred_edge_nil_uuid(lambda v: [_zero_none(v[0], [0, bytes(16)]), [[norm_floor(f) for f in t_] for t_ in v[1]], v[2]]))
+    add("rpc.edge.bindnak_trailer", "rpc.pdu.roundtrip", lambda: gen_edge_bindnak(ctx), impl_pdu_rt, prop_pred=pred_edge_bindnak)
+    add("rpc.edge.vt_empty", "rpc.vt.roundtrip", lambda: [[]], impl_vt_rt, prop_pred=pred_edge_vt_empty)
     add("rpc.tower", "epm.tower", lambda: [[R.g_sy(ctx.rng), R.g_sy(ctx.rng), p, a] for p in (0, 135, 65535) for a in (0, 1, 2 ** 32 - 1)], impl_tower)
     add("rpc.btfn", "rpc.btfn", lambda: [0, 1, 2, 3], impl_btfn)
 
